@@ -453,3 +453,45 @@ Proof.
   - exact (prints_admitted_all Sync txt p p' eq_refl Hp Ha Hf (fwf_src_single_decls p p' Ha Hc)).
   - exact (prints_admitted_np_fwd txt p p' Hp Ha Hf Hc).
 Qed.
+
+(* ------------------------------------------------------------------ the full statement for the contraction-free class, and what is proved of it.
+   FULL: cfree_src_b (no split, one provider name per process; forwards AND drop allowed).
+   PROVED (prints_admitted_np_cfree_partial): the same with fwf_src_b = cfree_src_b + no `drop` in any body.
+   MISSING: `drop x; k` in NP continues as k and reclaims nothing, so the step is s_drop whose pending request drop(x)
+   never fires (refines_np_drop below): the Sax configuration is α c plus such requests, and carrying them through the
+   later steps (sax_step_frame below) needs the invariant "the channel of every such request still occurs in α c"
+   (its provider is never reclaimed and nobody else refers to it: Topo + affinity), which is not proved here. *)
+Definition prints_admitted_np_cfree_stmt : Prop := forall txt p p',
+  parse_string txt = POk p -> typecheck p = Accept p' -> in_fragment p' -> cfree_src_b p = true ->
+  forall fuel pick, exists C',
+    sax_steps (p_funs p') true (sax_init p')
+      (labels (res_config (exec_run fuel pick NP (p_types p') (p_funs p') (init_config p')))) C'.
+
+Definition nodrop_src_b (p : program) : bool := fwf_src_b p.
+Theorem prints_admitted_np_cfree_partial : forall txt p p',
+  parse_string txt = POk p -> typecheck p = Accept p' -> in_fragment p' -> cfree_src_b p = true -> nodrop_src_b p = true ->
+  forall fuel pick, exists C',
+    sax_steps (p_funs p') true (sax_init p')
+      (labels (res_config (exec_run fuel pick NP (p_types p') (p_funs p') (init_config p')))) C'.
+Proof. intros txt p p' Hp Ha Hf _ Hnd. exact (prints_admitted_np_fwd txt p p' Hp Ha Hf Hnd). Qed.
+
+(* garbage that mentions only channels of the configuration does not disturb a step *)
+Lemma sax_step_frame F str C ls C' G :
+  (forall z, z ∈ cfg_cids G -> z ∈ cfg_cids C) ->
+  sax_step F str C ls C' -> sax_step F str (C ++ G) ls (C' ++ G).
+Proof.
+  intros HG (L & R & Δ & HC & HC' & Hred). exists L, R, (Δ ++ G). split; [by rewrite HC, app_assoc|]. split; [by rewrite HC', app_assoc|].
+  assert (Hcids : forall o z, z ∉ cfg_cids (o :: Δ) -> C ≡ₚ [o] ++ Δ -> z ∉ cfg_cids (o :: Δ ++ G)).
+  { intros o z Hz HCo Hin. unfold cfg_cids in Hin. cbn in Hin. rewrite flat_map_app in Hin.
+    rewrite app_assoc in Hin. apply elem_of_app in Hin as [Hin|Hin]; [by apply Hz|].
+    apply Hz. specialize (HG z Hin). unfold cfg_cids in HG. rewrite HCo in HG. exact HG. }
+  destruct Hred as [Hlin|[Hstr Hs]].
+  - left. destruct Hlin; by econstructor; eauto.
+  - right. split; [done|]. destruct Hs; try (by econstructor; eauto).
+    eapply s_copy; eauto. intros z Hz Hin.
+    match goal with H : forall z, z ∈ names_cids _ -> _ |- _ => apply (H z Hz) end.
+    assert (z ∈ cfg_cids (SSplit c1 c2 b :: Sax.obj b P :: Δ) \/ z ∈ cfg_cids G) as [Hin1|HinG].
+    { unfold cfg_cids in Hin |- *. cbn in Hin |- *. rewrite flat_map_app in Hin. set_solver. }
+    + exact Hin1.
+    + specialize (HG z HinG). unfold cfg_cids in HG |- *. rewrite HC in HG. exact HG.
+Qed.
